@@ -583,7 +583,23 @@ def _check_owning_next(ctx, R, adt, b, key):
     calls = ctx.calls(b)
     main_next = [c for c in calls if c.method == "next" and _side_of_receiver(ctx, b, c) == "IT_MAIN" and not b.is_cleanup(c.loc.bb)]
     old_next = [c for c in calls if c.method == "next" and _side_of_receiver(ctx, b, c) == "IT_OLD" and not b.is_cleanup(c.loc.bb)]
-    if not main_next or not old_next:
+    # the old side polled through a combinator: X = self.old.as_mut().map(|it| it.next())  (X: Option<Option<T>>; None = absent)
+    old_maps = []
+    for c in calls:
+        if c.name != OPT + "map" or b.is_cleanup(c.loc.bb) or not c.closure_args() or c.dest is None or c.dest["proj"]:
+            continue
+        src_ok = False
+        sd = b.source_def(c.args[0])
+        if sd is not None and sd[1] == "call":
+            sc = ctx.call_at(b, sd[0].bb)
+            if sc.name in (OPT + "as_mut",) and ctx.role(b, sc.arg_path(0)) == "IT_OLD":
+                src_ok = True
+        cb = c.closure_args()[0]
+        inner = [x for x in ctx.calls(cb) if not cb.is_cleanup(x.loc.bb)]
+        if src_ok and len(inner) == 1 and inner[0].method == "next" and inner[0].arg_path(0) is not None and inner[0].arg_path(0).root == 2 \
+                and not inner[0].arg_path(0).fields() and inner[0].dest is not None and inner[0].dest["local"] == 0 and not inner[0].dest["proj"]:
+            old_maps.append(c)
+    if not main_next or not (old_next or old_maps):
         R.viol(key + ":next-sides", b.where(Loc(0, 0)), "next() of %s does not poll both sides" % adt)
         return {}
     ok_edges = {e for e, v in _old_field_edges(ctx, b).items() if v == N_}
@@ -591,6 +607,14 @@ def _check_owning_next(ctx, R, adt, b, key):
         dl = c.dest["local"]
         res_edges = option_test_edges(ctx, b, lambda p, dl=dl: p.root == dl and not p.fields(), ignore_debug=False)
         ok_edges |= {e for e, v in res_edges.items() if v == N_}
+    map_some_edges = set()
+    for c in old_maps:
+        dl = c.dest["local"]
+        outer = option_test_edges(ctx, b, lambda p, dl=dl: p.root == dl and not p.fields(), ignore_debug=False)
+        inner_e = option_test_edges(ctx, b, lambda p, dl=dl: p.root == dl and [e[2] for e in p.fields()] == [0], ignore_debug=False)
+        ok_edges |= {e for e, v in outer.items() if v == N_}        # old side absent
+        ok_edges |= {e for e, v in inner_e.items() if v == N_}      # old side exhausted
+        map_some_edges |= {e for e, v in inner_e.items() if v == S_}
     for c in main_next:
         w = _variant_search(b, ok_edges, set(), lambda x, c=c: x == c.loc.bb)
         if w is not None:
@@ -604,6 +628,7 @@ def _check_owning_next(ctx, R, adt, b, key):
         dl = c.dest["local"]
         res_edges = option_test_edges(ctx, b, lambda p, dl=dl: p.root == dl and not p.fields(), ignore_debug=False)
         some_edges |= {e for e, v in res_edges.items() if v == S_}
+    some_edges |= map_some_edges
     main_bbs = {c.loc.bb for c in main_next}
     w = _variant_search(b, some_edges, main_bbs, lambda x: b.term(x)["k"] == "return")
     if w is not None:
